@@ -182,6 +182,35 @@ pub fn run(tier: Tier) -> i32 {
         }
     });
     st = st.merge(sb);
+    // long typed arrays: a well-typed temporary of n elements, then a badly typed temporary of
+    // the same length, in one expression and across searches on the same thread
+    for n in tier.pick(vec![31usize, 32, 33, 40, 64, 100, 257], vec![31, 32, 33, 40, 63, 64, 65, 100, 128, 255, 256, 257, 1000, 4096]) {
+        let good_n: Vec<Value> = (0..n).map(|i| json!(i)).collect();
+        let good_s: Vec<Value> = (0..n).map(|i| json!(format!("s{}", i))).collect();
+        let mut bad_n = good_n.clone();
+        bad_n[n - 1] = json!("x");
+        let mut bad_s = good_s.clone();
+        bad_s[n / 2] = json!(null);
+        let mut bad_first = good_n.clone();
+        bad_first[0] = json!([1]);
+        let dd = json!({"gn": good_n, "gs": good_s, "bn": bad_n, "bs": bad_s, "bf": bad_first});
+        for round in 0..3 {
+            let _ = round;
+            for f in ["sum", "avg", "max", "min", "sort"] {
+                for (g, b) in [("gn", "bn"), ("gn", "bf"), ("gs", "bn")] {
+                    for form in [format!("[{f}({g}[*]), {f}({b}[*])]"), format!("{f}({b}[*])"), format!("{f}({g}[*]) && {f}({b}[1:] )"), format!("{f}({b}[?@ || !@])"), format!("[{f}({g}), {f}({b})]")] {
+                        if f == "sum" || f == "avg" {
+                            if g == "gs" { continue; }
+                        }
+                        crate::checks::c06::check_wrapped(&form, "", &dd, &mut st);
+                    }
+                }
+            }
+            for form in ["[join(',', gs[*]), join(',', bs[*])]", "join(',', bs[*])", "[max(gs[*]), max(bs[*])]", "[sort(gs[*]), sort(bn[*])]"] {
+                crate::checks::c06::check_wrapped(form, "", &dd, &mut st);
+            }
+        }
+    }
     let model_err: u64 = st.counters.iter().filter(|(k, _)| k.starts_with("MODEL_ERROR")).map(|(_, v)| *v).sum();
     rep.guard("every generated call parses in the reference", model_err == 0);
     rep.guard("all outcome classes occur", ["invalid-arity", "invalid-type", "unknown function", "value"].iter().all(|k| st.outcomes.get(*k).cloned().unwrap_or(0) > 10));
